@@ -944,6 +944,16 @@ func walkVolume() []*walkCase {
 			{Pattern: map[string]interface{}{"likes": "?all"}, HasPattern: true, Target: "c"}}},
 		"a": {}, "b": {}, "c": {},
 	}}
+	// one action hands over more messages than a bound on emissions might allow, and then completes
+	many := make([]Op, 4100)
+	for i := range many {
+		many[i] = Op{Kind: "emit", J: map[string]interface{}{"k": float64(i % 7)}}
+	}
+	flood := &ASpec{ErrBranches: true, Nodes: map[string]*ANode{
+		"start": {Action: &Act{Native: true, P: &Prog{Ops: many, Term: "bindings"}}, HasBranches: true, Type: "bindings",
+			Branches: []*ABranch{{Pattern: map[string]interface{}{"actionError": "?e"}, HasPattern: true, Target: "b"}, {Target: "a"}}},
+		"a": {}, "b": {},
+	}}
 	none := &bpSpec{Kind: "none"}
 	st := func() *AState { return &AState{Node: "start", Bs: map[string]interface{}{}} }
 	return []*walkCase{
@@ -951,6 +961,7 @@ func walkVolume() []*walkCase {
 		{Spec: echo(false), State: st(), Msgs: batch(600), Limit: 1100, Bp: none}, // the limit strikes after 550 messages
 		{Spec: echo(true), State: st(), Msgs: batch(40), Limit: -1, Bp: none},
 		{Spec: choosy, State: st(), Msgs: []interface{}{map[string]interface{}{"likes": likes}}, Limit: 10, Bp: none},
+		{Spec: flood, State: st(), Msgs: nil, Limit: 10, Bp: none},
 	}
 }
 
